@@ -349,6 +349,8 @@ def run(prog, rep, tier):
         raise AnalysisError('GEOM-stale-mask: the mask uses of possible_couplings were not found')
     if check_derived_refresh(prog, rep) < 2:
         raise AnalysisError('GEOM-derived-refresh: writers of HelicalLattice._N_cells not found')
+    if check_size_rounding(prog, rep) < 1:
+        raise AnalysisError('GEOM-size-rounding: the row count of mps2lat_values_masked not found')
     if check_exact_div(prog, rep) < 2:
         raise AnalysisError('GEOM-exact-div: the unit-cell shifts of mps2lat_idx / lat2mps_idx not found')
     if check_radix(prog, rep) < 5:
@@ -534,4 +536,44 @@ def check_derived_refresh(prog, rep):
                                   'fields keep their old values' %
                                   (key_text(st)[:60], '/'.join(srcs), ci.name, rname, derived,
                                    wname, rname), st.lineno)
+    return n
+
+
+def check_size_rounding(prog, rep):
+    """GEOM-size-rounding: a quotient that sizes an array (`shape[k] += q`) to hold a range of
+    indices must be rounded UP when the division is not exact: an array one row short lets numpy's
+    negative-index wrap-around put values on rows that belong to other sites. Accepted: an exact
+    division (multiple-of fact) or a ceiling idiom ((x - 1) * a // b + 1, -(-x // b),
+    (x + b - 1) // b)."""
+    from ..pattern import P, pmatch
+    m = prog.module(LAT)
+    ceil_idioms = [P('$$e // $$b + 1'), P('($$x - 1) * $$a // $$b + 1'), P('($$x - 1) // $$b + 1'),
+                   P('-(-$$x // $$b)'), P('($$x + $$b - 1) // $$b'),
+                   P('-(-$$x * $$a // $$b)')]
+    n = 0
+    for q, f in m.functions.items():
+        facts = None
+        for st in stmts_of(f):
+            if not (isinstance(st, ast.AugAssign) and isinstance(st.op, ast.Add) and isinstance(
+                    st.target, ast.Subscript) and 'shape' in unparse(st.target.value)):
+                continue
+            divs = [d for d in ast.walk(st.value) if isinstance(d, ast.BinOp) and
+                    isinstance(d.op, ast.FloorDiv)]
+            if not divs:
+                continue
+            n += 1
+            if facts is None:
+                facts = _mult_facts(f)
+            ceil = any(pmatch(p, st.value) for p in ceil_idioms)
+            exact = all(any(facts.get(unparse(x)) == unparse(d.right) for x in _mul_factors(d.left))
+                        for d in divs)
+            rep.instance('GEOM-size-rounding', {'function': q, 'growth': key_text(st)[:70],
+                                                'ceiling_idiom': ceil, 'exact': exact})
+            if not (ceil or exact):
+                rep.violation('GEOM-size-rounding', m, q, 'rounds-down:' + unparse(st.value)[:40],
+                              '`%s` grows the array by a quotient that is rounded down although '
+                              'the division is not exact: when the most negative index only '
+                              'partly fills its ring the array is one row short and the wrapped '
+                              'negative indices collide with rows of other sites' %
+                              key_text(st)[:70], st.lineno)
     return n
